@@ -6,6 +6,8 @@ import (
 	"os"
 	"sort"
 	"strings"
+
+	jd1 "github.com/josephburnett/jd/lib"
 )
 
 // ---------------------------------------------------------------------------------------------
@@ -648,6 +650,70 @@ func c18MergeMetas() []struct {
 	}
 }
 
+// addC18ChainCase: merge round trips CHAINED on the same Go values inside one process (the document a
+// Patch returned is patched again, below an object that came out of the merge-patch reader), followed by
+// round trips on fresh documents and the no-op patch: a value shared between calls (a package-level
+// empty object, a pooled buffer) shows here and nowhere else.
+func addC18ChainCase(run *Run, r *Rng, cfg GenCfg) {
+	key := cfg.Keys[r.Intn(len(cfg.Keys))]
+	inner := cfg.Keys[r.Intn(len(cfg.Keys))]
+	a0 := cfg.Obj(r, 1)
+	a0.O[key] = VNum(1)
+	b1 := a0.Clone()
+	b1.O[key] = VObj()
+	b2 := b1.Clone()
+	b2.O[key] = VObj(inner, VNum(float64(1+r.Intn(3))))
+	a3 := VObj(key, VNum(2))
+	b3 := VObj(key, VObj())
+	steps := [][2]string{{"", b1.Wire()}, {"", b2.Wire()}, {a3.Wire(), b3.Wire()}, {VObj("q", VArr(VNum(1))).Wire(), VObj("q", VObj()).Wire()}}
+	c := Case{Recipe: Recipe{"c18chain", []string{a0.Wire(), b1.Wire(), b2.Wire(), a3.Wire(), b3.Wire()}}, Desc: map[string]string{"api": "v1", "a0": a0.Human(), "b1": b1.Human(), "b2": b2.Human()}}
+	c.Nontrivial = true
+	c.Sig = "chain|" + a0.Wire() + b2.Wire()
+	verdict, _ := safely(func() string {
+		cur := mustNodeV1(a0.Wire())
+		for i, st := range steps {
+			if st[0] != "" {
+				cur = mustNodeV1(st[0])
+			}
+			b := mustNodeV1(st[1])
+			d := cur.Diff(b, jd1.MERGE)
+			txt, err := d.RenderMerge()
+			if err != nil {
+				return fmt.Sprintf("fail step %d: RenderMerge: %v", i+1, err)
+			}
+			d2, err := jd1.ReadMergeString(txt)
+			if err != nil {
+				return fmt.Sprintf("fail step %d: ReadMergeString(%s): %v", i+1, txt, err)
+			}
+			res, err := cur.Patch(d2)
+			if err != nil {
+				return fmt.Sprintf("fail step %d: Patch: %v", i+1, err)
+			}
+			if !res.Equals(b, jd1.MERGE) {
+				return fmt.Sprintf("fail step %d: merge patch %s read back and applied gives %s, not %s", i+1, txt, res.Json(), b.Json())
+			}
+			cur = res
+		}
+		// the no-op merge patch
+		q := mustNodeV1(VObj("q", VBool(true)).Wire())
+		d0, err := jd1.ReadMergeString("{}")
+		if err != nil {
+			return "fail ReadMergeString({}): " + err.Error()
+		}
+		res, err := q.Patch(d0)
+		if err != nil || !res.Equals(q) {
+			return "fail the no-op merge patch {} changed the document to " + res.Json()
+		}
+		return "ok"
+	})
+	if verdict == "panic" {
+		verdict = "fail panic in a chained merge round trip"
+	}
+	c.Probes = append(c.Probes, Probe{Kind: "direct", Rel: "C18 v1 merge round trips chained on the same values in one process", Want: verdict})
+	run.Count("chain")
+	run.Add(c)
+}
+
 func propC18(run *Run, n int) {
 	run.rule = "v1 (package lib): random (a, b) over key pools with integer-looking keys (0, 1, 10, 01, -1, …) and keys needing pointer escaping (a/b, m~n, empty, ~1, …), objects and arrays nested in each other; (1) list mode: d = a.Diff(b) -> RenderPatch -> RFC 6902 evaluation on a, and ReadPatchString -> Patch on a; (2) merge mode (null-free, a not Equal b) x {MERGE, MERGE+SetPrecision(0), SET+MERGE, MULTISET+MERGE}: RenderMerge -> RFC 7386 MergePatch on a, and ReadMergeString -> Patch on a; non-trivial = the diff has at least one hunk; distinct = distinct (mode, a, b)"
 	r := NewRng(run.Seed)
@@ -668,6 +734,9 @@ func propC18(run *Run, n int) {
 				continue
 			}
 			addC18MergeCase(run, mm.m, mm.label, a, b)
+		}
+		if r.Chance(1, 40) {
+			addC18ChainCase(run, r, cfg)
 		}
 		if r.Chance(1, 8) {
 			// the readers on texts that are not the library's own output (correspondence only)
@@ -935,6 +1004,11 @@ func init() {
 	recipes["c18readpatch"] = func(run *Run, a []string) { addV1ReadPatchTextCase(run, a[0], mustVal(a[1])) }
 	recipes["c18readmerge"] = func(run *Run, a []string) { addV1ReadMergeTextCase(run, mustVal(a[0]), mustVal(a[1])) }
 	recipes["c18p"] = func(run *Run, a []string) { addC18PatchCase(run, mustVal(a[0]), mustVal(a[1])) }
+	recipes["c18chain"] = func(run *Run, a []string) {
+		cfg := DefaultCfg()
+		cfg.Keys = c18Keys
+		addC18ChainCase(run, NewRng(run.Seed), cfg)
+	}
 	recipes["c18m"] = func(run *Run, a []string) {
 		m, err := ParseV1Meta(a[0])
 		if err != nil {
